@@ -40,6 +40,7 @@ pub fn run(suite: &str, ctx: &mut Ctx) -> bool {
         "interp_search" => interp_search::run(ctx),
         "xorb" => xorb::run_roundtrip(ctx),
         "xorb_validate" => xorb::run_validate(ctx),
+        "xorb_validate-child" => xorb::run_validate_child(ctx),
         "shard_stream" => shard_stream::run(ctx),
         "shard_stream-child" => shard_stream::run_child(ctx),
         "crash" => crash::run_parent(ctx),
